@@ -1048,12 +1048,14 @@ package url
 //@   ensures query == "" && old(u.searchParams) != nil ==> (u.searchParams == old(u.searchParams) && len(u.searchParams.params) == 0)   [C12]
 //@   ensures old(u.searchParams) != nil ==> u.searchParams == old(u.searchParams)   [C12 same-handle]
 //@   ensures query != "" ==> u.searchParams != nil   [C12]
+//@   ensures query != "" ==> listIsParseOf(u.searchParams, *u.query)   [C12 list-is-the-parse-of-the-new-query]
 
 //@ func (*Url).SearchParams
 //@   requires wf(u)
 //@   modifies u.searchParams
 //@   ensures wf(u) && result != nil && result == u.searchParams && result.url == u   [C12]
 //@   ensures old(u.searchParams) != nil ==> result == old(u.searchParams)   [C12]
+//@   ensures (old(u.searchParams) == nil && u.query != nil) ==> listIsParseOf(result, *u.query)   [C12,C11 list-is-the-parse-of-the-query]
 //@   ensures old(u.searchParams) == nil ==> (fresh(result) && (result.params == nil || fresh(result.params))
 //@           && (forall k int :: (0 <= k && k < len(result.params)) ==> fresh(result.params[k])))
 //@ func (*Url).newUrlSearchParams
@@ -1061,6 +1063,7 @@ package url
 //@   modifies u.searchParams
 //@   ensures wf(u) && u.searchParams != nil && fresh(u.searchParams) && u.searchParams.url == u
 //@   ensures u.searchParams.params == nil || fresh(u.searchParams.params)
+//@   ensures u.query != nil ==> listIsParseOf(u.searchParams, *u.query)   [C12 list-is-the-parse-of-the-query]
 //@   ensures forall k int :: (0 <= k && k < len(u.searchParams.params)) ==> fresh(u.searchParams.params[k])
 //@ func (*Url).SetSearchParams
 //@   requires wf(u) && spOK(searchParams) && searchParams.url == u && searchParams != nil
